@@ -21,6 +21,7 @@ mod c05;
 mod c06;
 mod c07;
 mod c08;
+mod c09;
 mod c10;
 mod c15;
 mod c17;
@@ -72,6 +73,10 @@ fn main() {
             }
         }
     }
+    if args[1] == "c09-child" {
+        c09::child_main(&args);
+        return;
+    }
     if args[1] == "golden-gen" {
         c06::golden_gen();
         return;
@@ -113,6 +118,7 @@ fn main() {
         "C06" => c06::run(&ctx),
         "C07" => c07::run(&ctx),
         "C08" => c08::run(&ctx),
+        "C09" => c09::run(&ctx),
         "C10" => c10::run(&ctx),
         "C15" => c15::run(&ctx),
         "C17" => c17::run(&ctx),
